@@ -92,6 +92,7 @@ DelimBackslash == "\\"
 Chars(c) ==
   CASE c = "a"     -> <<"a">>
     [] c = "b"     -> <<"b">>
+    [] c = "A"     -> <<"A">>      \* differs from "a" in letter case only (names are case-sensitive)
     [] c = "INBOX" -> <<"I", "N", "B", "O", "X">>
     [] c = "inbox" -> <<"i", "n", "b", "o", "x">>
     [] c = "Inbox" -> <<"I", "n", "b", "o", "x">>
@@ -405,7 +406,10 @@ Kinds == <<"create", "create", "create", "create", "delete", "delete", "rename",
 KindSet == {<<i, Kinds[i]>> : i \in 1..Len(Kinds)}
 
 \* names close to what exists: existing ones, subscribed ones, their children, their placeholders
-Near == boxes \cup subs \cup SupersOf(boxes)
+\* the same name in the other letter case (components "a" / "A"): a rename that only changes the case is a rename
+CaseSwapComp(c) == IF c = "a" /\ "A" \in Comps THEN "A" ELSE IF c = "A" /\ "a" \in Comps THEN "a" ELSE c
+CaseSwap(n) == [i \in 1..Len(n) |-> CaseSwapComp(n[i])]
+Near == boxes \cup subs \cup SupersOf(boxes) \cup {CaseSwap(n) : n \in boxes}
          \cup {Append(n, c) : n \in {m \in boxes : Len(m) < MaxDepth}, c \in Comps}
          \cup {<<c>> : c \in Comps}
 \* spellings of a canonical name as a client may type it (first level inbox in other cases)
